@@ -14,7 +14,6 @@ Section GenT.
 Variable basis : list N.
 Variable cfg : config.
 Variable p : position.
-Hypothesis Hlen : Z.of_nat (length (all_moves p)) <= 690.
 
 Let len := Z.of_nat (length (all_moves p)).
 Let Heq a b := move_equal_try basis p a b.
@@ -39,19 +38,19 @@ Record GJ (seen : list position) (g : mgen) : Prop := {
 Lemma GJ_new s te pv ply depth : (forall i, te = Some i -> okm (e_m (nth i (table s) entry0))) -> Forall okm pv ->
   GJ [] (new_gen s te pv ply depth p).
 Proof.
-  clear Hlen. intros Hte Hpv. constructor; cbn [new_gen g_p g_te g_tec g_pv g_i g_r g_ms g_ply option_map]; try reflexivity; try assumption; try lia; try discriminate.
+  intros Hte Hpv. constructor; cbn [new_gen g_p g_te g_tec g_pv g_i g_r g_ms g_ply option_map]; try reflexivity; try assumption; try lia; try discriminate.
   intros tm E. destruct te as [i|]; [|discriminate E]. cbn in E. inversion E. apply Hte. reflexivity.
 Qed.
 
 (* zwSearch restarts the generator (mg.i = 0) and keeps everything else, including the generated list *)
 Lemma GJ_reset seen g : GJ seen g -> GJ [] (set_i g 0).
 Proof.
-  clear Hlen. intros G. destruct G. constructor; cbn [set_i g_p g_te g_tec g_pv g_i g_r g_ms g_ply]; auto; try lia.
+  intros G. destruct G. constructor; cbn [set_i g_p g_te g_tec g_pv g_i g_r g_ms g_ply]; auto; try lia.
 Qed.
 
 Lemma GJ_more seen g q : GJ seen g -> GJ (q :: seen) g.
 Proof.
-  clear Hlen. intros G. destruct G. constructor; auto.
+  intros G. destruct G. constructor; auto.
   - intros H tm q0 E T. right. eauto.
   - intros H m0 rest q0 E T. right. eauto.
   - intros H q0 T. right. eauto.
@@ -212,5 +211,12 @@ Proof.
   destruct (move_equal (g_r g1) m) eqn:ER.
   { apply SKIP. intros q T. rewrite <- (Heq _ _ ER) in T. apply (gj_rdone _ _ G1 ltac:(lia) q T). }
   exact TRY.
+Qed.
+(* the fuel the model gives its loops is always enough *)
+Lemma gfuel_okj seen g : GJ seen g -> len + 6 - g_i g < Z.of_nat (gfuel g).
+Proof.
+  intros G. pose proof (gj_i0 _ _ G) as I0. unfold gfuel. destruct (g_ms g) as [ms|] eqn:E.
+  - rewrite (Permutation_length (gj_msperm _ _ G ms E)). unfold len. lia.
+  - rewrite (gj_p _ _ G). unfold len. lia.
 Qed.
 End GenT.
